@@ -31,7 +31,7 @@ func init() {
 }
 
 type hstep struct {
-	Op   string // global func block append insert remove setterm rename namedmd attach
+	Op   string // global func block append insert remove setterm rename namedmd attach pairfunc pairglobal paircall typedef
 	F    int
 	B    int
 	I    int
@@ -56,6 +56,17 @@ var obsNames = []string{"Module.String", "Module.WriteTo", "Func.LLString", "Blo
 // hstate is the interpreter state.
 type hstate struct {
 	m *ir.Module
+	// a literal struct type shared by signatures, calls and globals; the
+	// "typedef" step gives it a name (or renames it) later on
+	pair      *types.StructType
+	pairFuncs []*ir.Func
+}
+
+func (h *hstate) pairType() *types.StructType {
+	if h.pair == nil {
+		h.pair = types.NewStruct(types.I32, types.I32)
+	}
+	return h.pair
 }
 
 func (h *hstate) fn(i int) *ir.Func {
@@ -75,7 +86,9 @@ func (h *hstate) blk(f *ir.Func, i int) *ir.Block {
 func avail(f *ir.Func) []value.Value {
 	var vs []value.Value
 	for _, p := range f.Params {
-		vs = append(vs, p)
+		if types.Equal(p.Type(), types.I32) {
+			vs = append(vs, p)
+		}
 	}
 	for _, b := range f.Blocks {
 		for _, inst := range b.Insts {
@@ -248,6 +261,35 @@ func (h *hstate) apply(s hstep) {
 			return
 		}
 		cands[s.I%len(cands)].SetName(s.Name)
+	case "pairfunc":
+		// a function whose signature mentions the shared struct type, variadic or not
+		f := m.NewFunc(s.Name, types.I32, ir.NewParam("a", h.pairType()), ir.NewParam("q", types.NewPointer(h.pairType())))
+		f.Sig.Variadic = s.Kind%2 == 0
+		b := f.NewBlock("entry")
+		b.NewRet(constant.NewInt(types.I32, 0))
+		h.pairFuncs = append(h.pairFuncs, f)
+	case "pairglobal":
+		// a global holding a pointer to such a function (its type is printed in full)
+		if len(h.pairFuncs) == 0 {
+			return
+		}
+		m.NewGlobalDef(s.Name, h.pairFuncs[s.I%len(h.pairFuncs)])
+	case "paircall":
+		f := h.fn(s.F)
+		b := h.blk(f, s.B)
+		if b == nil || len(h.pairFuncs) == 0 {
+			return
+		}
+		callee := h.pairFuncs[s.I%len(h.pairFuncs)]
+		call := ir.NewCall(callee, constant.NewUndef(h.pairType()), constant.NewNull(types.NewPointer(h.pairType())))
+		call.SetName(s.Name)
+		b.Insts = append(b.Insts, call)
+	case "typedef":
+		if h.pairType().Name() == "" {
+			m.NewTypeDef(s.Name, h.pairType())
+		} else {
+			h.pairType().SetName(s.Name)
+		}
 	case "namedmd":
 		nd, ok := m.NamedMetadataDefs[s.Name]
 		if !ok {
@@ -382,9 +424,24 @@ func genHistory(rng *rand.Rand, n int, fenced bool) []hstep {
 	steps = append(steps, hstep{Op: "func", Name: name(false), N: rng.Intn(4), Kind: rng.Intn(8), A: rng.Intn(2)})
 	funcs = append(funcs, fshape{blocks: []int{0}})
 	for len(steps) < n {
-		r := rng.Intn(100)
+		r := rng.Intn(110)
 		fi := rng.Intn(len(funcs))
 		switch {
+		case r >= 108:
+			steps = append(steps, hstep{Op: "typedef", Name: name(false)})
+		case r >= 105:
+			bi := rng.Intn(len(funcs[fi].blocks))
+			nm := name(true)
+			if fenced && nm == "" {
+				nm = name(false)
+			}
+			steps = append(steps, hstep{Op: "paircall", F: fi, B: bi, I: rng.Intn(9), Name: nm})
+			funcs[fi].blocks[bi]++
+		case r >= 103:
+			steps = append(steps, hstep{Op: "pairglobal", Name: name(false), I: rng.Intn(9)})
+		case r >= 100:
+			steps = append(steps, hstep{Op: "pairfunc", Name: name(false), Kind: rng.Intn(2)})
+			funcs = append(funcs, fshape{blocks: []int{0}})
 		case r < 8:
 			nm := name(true)
 			if fenced && nm == "" && unnamedFuncExists {
